@@ -7,8 +7,9 @@ Open Scope string_scope.
 Open Scope list_scope.
 
 (* For every priority list, every non-empty set of declaring services and every enclosing
-   location the chooser returns a declaring service that satisfies the rule: first applicable
-   priority; else the enclosing object's service if it offers the field; else the gateway. *)
+   location the chooser returns a declaring service that satisfies the rule: the gateway's own
+   fields are answered by the gateway; otherwise the first applicable priority; else the
+   enclosing object's service if it offers the field. *)
 Theorem C20_chooser_meets_rule : forall prios possible parent,
   possible <> [] -> spec_loc prios possible parent (selectLocation prios possible parent).
 Proof. exact chooser_meets_rule. Qed.
@@ -17,7 +18,7 @@ Print Assumptions C20_chooser_meets_rule.
 (* ... and the rule leaves no freedom whenever one of its clauses applies. *)
 Theorem C20_rule_determines : forall prios possible parent l1 l2,
   spec_loc prios possible parent l1 -> spec_loc prios possible parent l2 ->
-  (first_possible prios possible <> None \/ In parent possible \/ In internal_loc possible) ->
+  (In internal_loc possible \/ first_possible prios possible <> None \/ In parent possible) ->
   l1 = l2.
 Proof. exact rule_determines. Qed.
 Print Assumptions C20_rule_determines.
